@@ -427,6 +427,9 @@ func identical(a, b value) (r bool) {
 	case symv:
 		y, ok := b.(symv)
 		return ok && x.t == y.t
+	case symstr:
+		y, ok := b.(symstr)
+		return ok && x.t == y.t
 	case []value, *omap, structure, array, tuple, iface, *symslice, *sstr:
 		return false
 	}
